@@ -31,8 +31,9 @@ VARIABLES l, sid,
           lastinj,   \* <<tid, sig>> -> request that injected it last ("cont" / "step" / "syscall")
           foundby,   \* <<tid, sig>> -> "wait_any" / "wait_tid" / "wait_after_interrupt": how the tracer met the delivery-stop
           maxout,    \* tid -> largest number of queue-worthy signals outstanding for the thread at a prompt (held + owed)
-          lastreq    \* tid -> last ptrace request / wait selector class seen for the task
-vars == <<l, sid, stopk, owed, seen, reported, announced, sent, amb, inj, prom, cnt, viol, aborted, shape, lastinj, foundby, maxout, lastreq>>
+          lastreq,   \* tid -> last ptrace request / wait selector class seen for the task
+          supby      \* <<tid, sig>> -> the request that cancelled the signal of the task's delivery-stop (cont / step / ..)
+vars == <<l, sid, stopk, owed, seen, reported, announced, sent, amb, inj, prom, cnt, viol, aborted, shape, lastinj, foundby, maxout, lastreq, supby>>
 
 Get(f, k) == IF k \in DOMAIN f THEN f[k] ELSE 0
 Get2(f, k) == IF k \in DOMAIN f THEN f[k] ELSE "none"
@@ -47,7 +48,7 @@ KindOf(s) == IF s \in Quiet THEN "quiet" ELSE IF s \in Transparent THEN "transpa
 
 Init == /\ l = 1 /\ sid = "" /\ stopk = <<>> /\ owed = <<>> /\ seen = <<>> /\ reported = <<>> /\ announced = <<>>
         /\ sent = Zero /\ amb = {} /\ inj = Zero /\ prom = Zero /\ cnt = Zero /\ viol = <<>> /\ aborted = FALSE /\ shape = <<>>
-        /\ lastinj = <<>> /\ foundby = <<>> /\ maxout = <<>> /\ lastreq = <<>>
+        /\ lastinj = <<>> /\ foundby = <<>> /\ maxout = <<>> /\ lastreq = <<>> /\ supby = <<>>
 
 \* ---- one resume (PTRACE_CONT / PTRACE_SINGLESTEP / PTRACE_SYSCALL with data) ---------------------------------
 Resume(e) ==
@@ -72,7 +73,10 @@ Resume(e) ==
   /\ announced' = IF needAnn /\ Get(announced, <<t, d>>) > 0 THEN Put(announced, <<t, d>>, Get(announced, <<t, d>>) - 1) ELSE announced
   /\ viol' = viol
        \o (IF ~dz /\ ~honoured /\ k # "none"
-             THEN <<VV("injected_into_event_stop", e.ev, d, "a signal-delivery/trap/syscall stop", k, k)>> ELSE <<>>)
+             THEN <<VV("injected_into_event_stop", e.ev, d, "a signal-delivery/trap/syscall stop", k,
+                       \* how the thread had left the delivery-stop of this signal: a `cont` without the signal means the
+                       \* tracer let a thread go whose signal it still had parked (it is never the case on the pinned tree)
+                       IF Get2(supby, <<t, d>>) = "cont" THEN k \o "_after_cancel_by_cont" ELSE k)>> ELSE <<>>)
        \o (IF injects /\ honoured /\ ~owedHere
              THEN <<VV(IF owedElse THEN "injected_into_wrong_thread" ELSE "injected_twice", e.ev, d, "an entry owed to this thread", "none",
                        Get2(lastinj, <<t, d>>) \o "_then_" \o e.ev)>>
@@ -84,6 +88,7 @@ Resume(e) ==
              THEN <<VV("delivered_unreported", e.ev, d, "reported before delivery", "no report", Get2(foundby, <<t, d>>))>> ELSE <<>>)
   /\ lastinj' = IF delivered THEN Put(lastinj, <<t, d>>, e.ev) ELSE lastinj
   /\ lastreq' = Put(lastreq, t, e.ev)
+  /\ supby' = IF suppress /\ h \in SigNames THEN Put(supby, <<t, h>>, e.ev) ELSE supby
   /\ UNCHANGED <<foundby, maxout>>
   /\ UNCHANGED <<sid, seen, reported, sent, amb, prom, cnt, aborted, shape>>
 
@@ -95,14 +100,14 @@ Wait(e) ==
   /\ seen' = IF s \in SigNames THEN Put(seen, <<t, s>>, Get(seen, <<t, s>>) + 1) ELSE seen
   /\ viol' = viol \o (IF Kind(t) # "none" THEN <<V("model_wait_without_resume", "wait", s, "none", Kind(t))>> ELSE <<>>)
   /\ lastreq' = Put(lastreq, t, IF e.sel = t /\ Get2(lastreq, t) = "interrupt" THEN "wait_after_interrupt" ELSE "wait")
-  /\ UNCHANGED <<sid, owed, reported, announced, sent, amb, inj, prom, cnt, aborted, shape, lastinj, maxout>>
+  /\ UNCHANGED <<sid, owed, reported, announced, sent, amb, inj, prom, cnt, aborted, shape, lastinj, maxout, supby>>
   /\ foundby' = IF s \in SigNames THEN Put(foundby, <<t, s>>, IF e.sel # t THEN "wait_any" ELSE IF Get2(lastreq, t) = "interrupt" THEN "wait_after_interrupt" ELSE "wait_tid") ELSE foundby
 
 Send(e) ==
   /\ IF "skipped" \in DOMAIN e THEN UNCHANGED <<sent, amb>>
      ELSE /\ sent' = IF e.coal THEN sent ELSE [sent EXCEPT ![e.sig] = @ + 1]
           /\ amb' = IF e.ambiguous THEN amb \cup {e.sig} ELSE amb
-  /\ UNCHANGED <<sid, stopk, owed, seen, reported, announced, inj, prom, cnt, viol, aborted, shape, lastinj, foundby, maxout, lastreq>>
+  /\ UNCHANGED <<sid, stopk, owed, seen, reported, announced, inj, prom, cnt, viol, aborted, shape, lastinj, foundby, maxout, lastreq, supby>>
 
 \* a prompt, projected by the check: [cmd, reports : Seq([sig, tid]), has_cnt, cnt : [sig -> n], failed, detail]
 \* `reported[<<t, s>>]` counts LEGITIMATE reports only: a report is legitimate while a delivery-stop of (t, s) the tracer
@@ -149,7 +154,7 @@ Prompt(e) ==
                     Out(t) == SumOver(owed, {x \in DOMAIN owed : x[1] = t})
                               + (IF Kind(t) = "signal" /\ Held(t) \in SigNames \ Transparent THEN 1 ELSE 0)
                 IN [t \in T \cup DOMAIN maxout |-> IF t \in T /\ Out(t) > Get(maxout, t) THEN Out(t) ELSE Get(maxout, t)]
-  /\ UNCHANGED <<sid, stopk, owed, seen, sent, amb, inj, lastinj, foundby, lastreq>>
+  /\ UNCHANGED <<sid, stopk, owed, seen, sent, amb, inj, lastinj, foundby, lastreq, supby>>
 
 \* end of a session: [exited, has_final, final : [sig -> n]]
 End(e) ==
@@ -176,12 +181,12 @@ End(e) ==
           \o (LET M == {s \in SigNames : inj[s] # f[s] /\ s \notin Transparent} IN
               IF M # {} THEN <<V("model_accounting_ne_counters", "exit", CHOOSE s \in M : TRUE, inj, f)>> ELSE <<>>)
           ELSE <<>>)
-  /\ UNCHANGED <<sid, stopk, owed, seen, reported, announced, sent, amb, inj, prom, cnt, aborted, shape, lastinj, foundby, maxout, lastreq>>
+  /\ UNCHANGED <<sid, stopk, owed, seen, reported, announced, sent, amb, inj, prom, cnt, aborted, shape, lastinj, foundby, maxout, lastreq, supby>>
 
 Reset(e) ==
   /\ sid' = e.id /\ stopk' = <<>> /\ owed' = <<>> /\ seen' = <<>> /\ reported' = <<>> /\ announced' = <<>>
   /\ sent' = Zero /\ amb' = {} /\ inj' = Zero /\ prom' = Zero /\ cnt' = Zero /\ aborted' = FALSE /\ shape' = <<>>
-  /\ lastinj' = <<>> /\ foundby' = <<>> /\ maxout' = <<>> /\ lastreq' = <<>>
+  /\ lastinj' = <<>> /\ foundby' = <<>> /\ maxout' = <<>> /\ lastreq' = <<>> /\ supby' = <<>>
   /\ UNCHANGED viol
 
 Consume ==
@@ -189,19 +194,19 @@ Consume ==
   /\ l' = l + 1
   /\ LET e == Rec[l] IN
      CASE e.ev = "reset" -> Reset(e)
-       [] e.ev \in {"cont", "step", "syscall"} -> IF e.ret = 0 THEN Resume(e) ELSE UNCHANGED <<sid, stopk, owed, seen, reported, announced, sent, amb, inj, prom, cnt, viol, aborted, shape, lastinj, foundby, maxout, lastreq>>
-       [] e.ev = "wait" -> IF e.tid > 0 THEN Wait(e) ELSE UNCHANGED <<sid, stopk, owed, seen, reported, announced, sent, amb, inj, prom, cnt, viol, aborted, shape, lastinj, foundby, maxout, lastreq>>
+       [] e.ev \in {"cont", "step", "syscall"} -> IF e.ret = 0 THEN Resume(e) ELSE UNCHANGED <<sid, stopk, owed, seen, reported, announced, sent, amb, inj, prom, cnt, viol, aborted, shape, lastinj, foundby, maxout, lastreq, supby>>
+       [] e.ev = "wait" -> IF e.tid > 0 THEN Wait(e) ELSE UNCHANGED <<sid, stopk, owed, seen, reported, announced, sent, amb, inj, prom, cnt, viol, aborted, shape, lastinj, foundby, maxout, lastreq, supby>>
        [] e.ev = "interrupt" -> /\ lastreq' = Put(lastreq, e.tid, "interrupt")
-                               /\ UNCHANGED <<sid, stopk, owed, seen, reported, announced, sent, amb, inj, prom, cnt, viol, aborted, shape, lastinj, foundby, maxout>>
+                               /\ UNCHANGED <<sid, stopk, owed, seen, reported, announced, sent, amb, inj, prom, cnt, viol, aborted, shape, lastinj, foundby, maxout, supby>>
        [] e.ev = "send" -> Send(e)
        [] e.ev = "prompt" -> Prompt(e)
        [] e.ev = "end" -> End(e)
-       [] OTHER -> UNCHANGED <<sid, stopk, owed, seen, reported, announced, sent, amb, inj, prom, cnt, viol, aborted, shape, lastinj, foundby, maxout, lastreq>>
+       [] OTHER -> UNCHANGED <<sid, stopk, owed, seen, reported, announced, sent, amb, inj, prom, cnt, viol, aborted, shape, lastinj, foundby, maxout, lastreq, supby>>
 
 Finish == /\ l = Len(Rec) + 1
           /\ PrintT(<<"VERDICT", ToJson([n |-> Len(Rec), viol |-> viol])>>)
           /\ l' = l + 1
-          /\ UNCHANGED <<sid, stopk, owed, seen, reported, announced, sent, amb, inj, prom, cnt, viol, aborted, shape, lastinj, foundby, maxout, lastreq>>
+          /\ UNCHANGED <<sid, stopk, owed, seen, reported, announced, sent, amb, inj, prom, cnt, viol, aborted, shape, lastinj, foundby, maxout, lastreq, supby>>
 
 Next == Consume \/ Finish
 TraceSpec == Init /\ [][Next]_vars
